@@ -22,10 +22,10 @@ F1_BITS = (1 << 5) | (1 << 6)
 def bit_names(b): return [n for i, n in enumerate(BITS) if b >> i & 1]
 
 
-def seq_term(ops, rec, W):
+def seq_term(ops, rec, W, with_integ=True):
     ex = '[' + '; '.join('(%d, %s)' % (1 if r else 0, cw.dump_term(d)) for r, d, _ in rec) + ']'
     opsT = '[' + '; '.join(cw.op_term(o) for o in ops) + ']'
-    hs = '[' + '; '.join(cw.nat(h) for h in range(len(W.objs))) + ']'
+    hs = '[' + '; '.join(cw.nat(h) for h in range(len(W.objs) if with_integ else 0)) + ']'
     return ('let ex := %s in let ops := %s in (first_diff init ops ex 0, spec_scan init ops ex 0, map (integrity3 (load %s)) %s)'
             % (ex, opsT, cw.dump_term(rec[-1][1]), hs))
 
@@ -34,6 +34,14 @@ def known(ctx, fid):
     for k in ctx.known:
         if k['id'] == fid and k.get('status') == 'known': return k
     return None
+
+
+def fast_term(ops, rec, W):
+    """per call only (raise flag, fingerprint of the real object graph): the comparison and the Spec clauses run on the model state"""
+    ex = '[' + '; '.join('(%d, %d)' % (1 if r else 0, cw.fp_dump(d)) for r, d, _ in rec) + ']'
+    opsT = '[' + '; '.join(cw.op_term(o) for o in ops) + ']'
+    hs = '[' + '; '.join(cw.nat(h) for h in range(len(W.objs))) + ']'
+    return 'scan_fast %s %s %s' % (opsT, ex, hs)
 
 
 class Verdicts:
@@ -99,18 +107,76 @@ def run_sequences(ctx, V, n_random, n_ops):
         W, ops, rec = cw.random_run(random.Random(seed), n_ops, fault_rate=0.4 if i % 2 else 0.25)
         batch.append(('random:seed=%d' % seed, ops, rec, W))
     n_raise = 0
-    for k in range(0, len(batch), 14):
-        chunk = batch[k:k + 14]
-        items = [('s%d' % j, seq_term(ops, rec, W)) for j, (_, ops, rec, W) in enumerate(chunk)]
-        res = common.coq_eval('C11_seq_%d' % (k // 14), PRE, items)
+    CH = 60
+    broken = []
+    for k in range(0, len(batch), CH):
+        chunk = batch[k:k + CH]
+        items = [('s%d' % j, fast_term(ops, rec, W)) for j, (_, ops, rec, W) in enumerate(chunk)]
+        res = common.coq_eval('C11_seq_%d' % (k // CH), PRE, items)
         for j, (tag, ops, rec, W) in enumerate(chunk):
-            judge_sequence(ctx, V, tag, ops, rec, W, res['s%d' % j])
+            rj = res['s%d' % j]
+            if rj[0] is not None:
+                broken.append((int(rj[0][1][0]), tag, ops, rec, W, rj))
+            else:
+                judge_sequence(ctx, V, tag, ops, rec, W, rj)
             for o, (r, d, _) in zip(ops, rec):
                 ctx.count((o, r, len(d[0]), len(d[1]), len(d[2])))      # distinct by call, outcome and size of the heap it ran in
                 n_raise += 1 if r else 0
             if len(ctx.cov['samples']) < 4:
                 ctx.sample({'sequence': tag, 'ops': [list(o) for o in ops[:12]], 'raised': [bool(r) for r, _, _ in rec[:12]]})
+    if broken:
+        # the model left the real behaviour on these sequences: re-evaluate (a few of) them with the full real dumps so that
+        # the Spec clauses are judged on the REAL states (= search for an input that violates the property itself)
+        broken.sort(key=lambda b: (b[0], len(b[2])))
+        full = broken[:8]
+        items = [('f%d' % j, seq_term(ops[:i + 6], rec[:i + 6], W, with_integ=False)) for j, (i, tag, ops, rec, W, _) in enumerate(full)]
+        res = common.coq_eval('C11_seq_full', PRE, items, timeout=900)
+        for j, (i, tag, ops, rec, W, _) in enumerate(full):
+            fd, scan, _ = res['f%d' % j]
+            judge_sequence(ctx, V, tag, ops, rec, W, (fd, scan, []))
+        for (i, tag, ops, rec, W, rj) in broken[8:]:
+            judge_sequence(ctx, V, tag, ops, rec, W, (rj[0], [], []))
+        ctx.notes['sequences_where_model_and_impl_differ'] = len(broken)
     ctx.notes['sequences'] = {'directed': len(cw.DIRECTED), 'random': n_random, 'calls': sum(len(b[1]) for b in batch), 'calls_that_raised': n_raise}
+
+
+def run_pairs(ctx, V):
+    """exhaustive: every ordered pair of calls from a 48-call alphabet in three contexts (clean / one wire driven / after a failed rename)"""
+    A = cw.pair_alphabet()
+    total = 0
+    for cname, pre in cw.PAIR_CONTEXTS.items():
+        prelude = PRE + 'Definition pre0 : list op := [' + '; '.join(cw.op_term(o) for o in pre) + '].\n'
+        cases = []
+        for a in A:
+            for b in A:
+                W, rec = cw.replay_ops(pre + [a, b])
+                cases.append(([a, b], rec[len(pre):], W))
+        for k in range(0, len(cases), 600):
+            chunk = cases[k:k + 600]
+            items = []
+            for j, (ops, rec, W) in enumerate(chunk):
+                ex = '[' + '; '.join('(%d, %d)' % (1 if r else 0, cw.fp_dump(d)) for r, d, _ in rec) + ']'
+                hs = '[' + '; '.join(cw.nat(h) for h in range(len(W.objs))) + ']'
+                items.append(('p%d' % j, 'scan_fast_from pre0 [%s] %s %s' % ('; '.join(cw.op_term(o) for o in ops), ex, hs)))
+            res = common.coq_eval('C11_pairs_%s_%d' % (cname, k // 600), prelude, items, timeout=900)
+            for j, (ops, rec, W) in enumerate(chunk):
+                rj = res['p%d' % j]
+                full_ops = pre + ops
+                tag = 'pairs:%s' % cname
+                if rj[0] is not None:
+                    W2, rec2 = cw.replay_ops(full_ops)
+                    rj = common.coq_eval('C11_seq_full', PRE, [('s', seq_term(full_ops, rec2, W2, with_integ=False))])['s']
+                    judge_sequence(ctx, V, tag, full_ops, rec2, W2, (rj[0], rj[1], []))
+                    if len(V.spec_fail) + len(V.tie_breaks) > 6: return
+                else:
+                    # indices reported by the scan are relative to the pair: shift them
+                    scan = [(i + len(pre), b, reg) for (i, b, reg) in rj[1]]
+                    W2, rec2 = W, cw.replay_ops(full_ops)[1] if scan else None
+                    judge_sequence(ctx, V, tag, full_ops, rec2 if scan else [(False, None, '')] * len(pre) + rec, W, (None, scan, rj[2]))
+                ctx.count(('pair', cname, tuple(ops[0]), tuple(ops[1])), n=2)
+                total += 1
+    ctx.notes['exhaustive_pairs'] = {'alphabet': len(A), 'contexts': list(cw.PAIR_CONTEXTS), 'sequences': total}
+    ctx.cov['exhaustive'] = False
 
 
 # ---------------------------------------------------------------- library blocks with single faults
@@ -130,8 +196,15 @@ def run_library(ctx, V, widths_per_block, all_inputs):
                 d, objs, wires = cw.dump_hierarchy(py4hw, hw)
             except cw.NotSupported as ex:
                 skipped.append('%s/%d: %s' % (name, w, ex)); continue
+            except Exception as ex:
+                V.spec_fail.append({'what': 'constructing a well-formed library block (every input driven by a Constant) raised', 'block': name, 'width': w,
+                                    'fault': 'none', 'impl_exception': '%s: %s' % (type(ex).__name__, ex)})
+                continue
             real, txt = cw.real_integrity(py4hw, hw)
             driven = [i for i, wr in enumerate(wires) if wr.getSource() is not None]
+            if not driven:
+                V.spec_fail.append({'what': 'no wire of a well-formed library block has a registered source', 'block': name, 'width': w, 'fault': 'none'})
+                continue
             # (c) duplicated driver on a random driven wire (internal ones included): the constructor must raise, the source must stay
             k = rng.choice(driven); tgt = wires[k]; before = tgt.getSource()
             try:
@@ -148,23 +221,26 @@ def run_library(ctx, V, widths_per_block, all_inputs):
             k2 = rng.choice(driven)
             wires[k2].source = None
             real_c, txt_c = cw.real_integrity(py4hw, hw)
-            items.append(('b%d' % len(meta), 'let s := load %s in (integrity3 s 0%%nat, integrity3 (clear_source s %s) 0%%nat)' % (cw.dump_term(d), cw.nat(k2))))
+            items.append(('b%d' % len(meta), 'let s := load %s in [integrity3 s 0%%nat; integrity3 (clear_source s %s) 0%%nat]' % (cw.dump_term(d), cw.nat(k2))))
             meta.append(({'block': name, 'width': w, 'fault': 'none'}, real, txt,
                          {'block': name, 'width': w, 'fault': 'source of wire %s cleared' % wires[k2].getFullPath()}, real_c, txt_c))
             ctx.count(('lib', name, w, 'none')); ctx.count(('lib', name, w, 'cleared', k2))
             # (a) one input driver missing
             n_in = len(I)
             for skip in (range(n_in) if all_inputs else [rng.randrange(n_in)]):
-                _, hw2, _, _ = cw.build_block(entry, w, skip_driver=skip)
-                d2, _, _ = cw.dump_hierarchy(py4hw, hw2)
+                try:
+                    _, hw2, _, _ = cw.build_block(entry, w, skip_driver=skip)
+                    d2, _, _ = cw.dump_hierarchy(py4hw, hw2)
+                except Exception as ex:
+                    skipped.append('%s/%d without driver %d: %s' % (name, w, skip, ex)); continue
                 real2, txt2 = cw.real_integrity(py4hw, hw2)
-                items.append(('b%d' % len(meta), 'let s := load %s in (integrity3 s 0%%nat, integrity3 s 0%%nat)' % cw.dump_term(d2)))
+                items.append(('b%d' % len(meta), 'let s := load %s in [integrity3 s 0%%nat; integrity3 s 0%%nat]' % cw.dump_term(d2)))
                 meta.append(({'block': name, 'width': w, 'fault': 'driver of input %d omitted' % skip}, real2, txt2, None, None, None))
                 ctx.count(('lib', name, w, 'undriven', skip))
     n_acc = n_rej = 0
-    for k in range(0, len(items), 40):
-        res = common.coq_eval('C11_lib_%d' % (k // 40), PRE, items[k:k + 40], timeout=900)
-        for (nm_, _), m in zip(items[k:k + 40], meta[k:k + 40]):
+    for k in range(0, len(items), 250):
+        res = common.coq_eval("C11_lib_%d" % (k // 250), PRE, items[k:k + 250], timeout=900)
+        for (nm_, _), m in zip(items[k:k + 250], meta[k:k + 250]):
             (a, b) = res[nm_]
             w1, real1, txt1, w2, real2, txt2 = m
             judge_integrity(ctx, V, w1, real1, txt1, *a)
@@ -206,12 +282,18 @@ def run(ctx):
     ctx.notes['translator'] = 'not used: Model/Build.v is hand-written (T-corr); tied by the per-call differential'
     r = ctx.prove(['Properties/C11.v'])
     V = Verdicts()
-    n_random, n_ops = (32, 30) if ctx.quick else (420, 36)
-    run_sequences(ctx, V, n_random, n_ops)
-    ctx.log('sequences done')
-    run_library(ctx, V, widths_per_block=2 if ctx.quick else 6, all_inputs=not ctx.quick)
-    ctx.log('library done')
-    wit = replay_refutations(ctx)
+    n_random, n_ops = (32, 30) if ctx.quick else (900, 36)
+    import traceback
+    wit = {'F1_evicts': False, 'F1_replaces': False, 'F2_inout': False}
+    for phase, fn in (('sequences', lambda: run_sequences(ctx, V, n_random, n_ops)),
+                      ('exhaustive pairs', (lambda: None) if ctx.quick else (lambda: run_pairs(ctx, V))),
+                      ('library', lambda: run_library(ctx, V, widths_per_block=2 if ctx.quick else 6, all_inputs=not ctx.quick)),
+                      ('refutation witnesses', lambda: wit.update(replay_refutations(ctx)))):
+        try:
+            fn()
+        except Exception as ex:          # a crash of one phase must not hide what the others found
+            V.tie_breaks.append({'what': 'the %s phase of the check raised %s: %s' % (phase, type(ex).__name__, ex), 'traceback': traceback.format_exc()[-2500:]})
+        ctx.log(phase + ' done')
     # ---- decide
     for v in V.spec_fail[:3]:
         ctx.violation(v)
